@@ -12,11 +12,13 @@
 -/
 import TypedpyModel.Drive.Wire
 import TypedpyModel.Spec.ConvertSpec
+import TypedpyModel.Sem.ConvertDeser
 namespace Typedpy.Drive.Convert
 open Lean (Json)
 open Typedpy.Convert hiding Json
 
 abbrev J := Typedpy.Convert.Json
+abbrev CR := Typedpy.Convert.R
 
 partial def docOfJson (j : Json) : Except String J :=
   match j with
@@ -45,20 +47,20 @@ partial def docToJson : J → Json
   | .list xs => Json.arr (xs.map docToJson).toArray
   | .obj kvs => Json.mkObj [("o", Json.arr (kvs.map fun (k, v) => Json.arr #[.str k, docToJson v]).toArray)]
 
-def errOfName : String → Err
+def errOfName : String → Typedpy.Convert.Err
   | "TypeError" => .typeErr
   | "AttributeError" => .attrErr
   | s => .other s
 
 /-- decode an outcome `{"ok": value} | {"err": class name}` (every exception class is representable) -/
-def outcomeOfJson (j : Json) : Except String (R J) := do
+def outcomeOfJson (j : Json) : Except String (CR J) := do
   if let .ok x := j.getObjVal? "ok" then return .ok (← docOfJson x)
   pure (.error (errOfName (← (← j.getObjVal? "err").getStr?)))
 
 /-- a user function given by the table of calls observed on the real code (`rows` = (arguments, outcome));
     arguments are compared like Python `==` on JSON documents (key order ignored).  A call the table does not
     have answers `oracle-miss`, which the harness reports as a disagreement. -/
-def tableFn (rows : List (List J × R J)) : UserFn := fun args =>
+def tableFn (rows : List (List J × CR J)) : UserFn := fun args =>
   match rows.find? (fun r => r.1.length == args.length && (r.1.zip args).all fun p => pyEq p.1 p.2) with
   | some r => r.2
   | none => .error (.other "oracle-miss")
@@ -92,17 +94,17 @@ partial def mappingOfJson (fns : Json) (j : Json) : Except String Mapping := do
       return ((k.dropEnd mapperSuffix.length).toString, Entry.sub (← mappingOfJson fns x))
     throw s!"mapping entry {e.compress}"
 
-def errName : Err → String
+def errName : Typedpy.Convert.Err → String
   | .typeErr => "TypeError"
   | .attrErr => "AttributeError"
   | .other n => n
 
-def resToJson : R J → Json
+def resToJson : CR J → Json
   | .ok v => Json.mkObj [("ok", docToJson v)]
   | .error e => Json.mkObj [("err", .str (errName e))]
 
 /-- decode a result of the real code; `none` when it raised a class the model does not have -/
-def resOfJson (j : Json) : Except String (Option (R J)) := do
+def resOfJson (j : Json) : Except String (Option (CR J)) := do
   if let .ok x := j.getObjVal? "ok" then return some (.ok (← docOfJson x))
   match (← j.getObjVal? "err").getStr? with
   | .ok "NotJson" => pure none
@@ -130,14 +132,31 @@ def run (j : Json) : Except String Json := do
   let msOpt := if hasAttr then some ms else none
   let deserIn := deserVersioned id msOpt doc
   -- undeclared keys kept by the Versioned deserialization (Sem `deserExtras`)
-  let fields ← match Typedpy.Wire.optField j "fields" with
+  let fields : List String ← match Typedpy.Wire.optField j "fields" with
     | none => pure []
     | some a => (← a.getArr?).toList.mapM (·.getStr?)
   let keep : Option Bool := match j.getObjVal? "keep" with | .ok (.bool b) => some b | _ => none
-  let addl := match j.getObjVal? "addl" with | .ok (.bool b) => b | _ => true
-  let extras : R J := match deserExtras fields keep addl msOpt doc with
+  let addl : Bool := match j.getObjVal? "addl" with | .ok (.bool b) => b | _ => true
+  let extras : CR J := match Typedpy.Convert.deserExtras fields keep addl msOpt doc with
     | .ok kvs => .ok (.obj kvs)
     | .error e => .error e
+  -- the whole path of Deserializer(V).deserialize (Sem/ConvertDeser.lean), and the latest non-Versioned class on
+  -- the converted document
+  let whole ← match Typedpy.Wire.optField j "cls" with
+    | none => pure []
+    | some cj => do
+      let O ← Typedpy.Wire.oraclesOfJson j
+      let cls ← Typedpy.Wire.declOfJson cj
+      let opts : Typedpy.DeserOpts := { keepUndefined := adjustedKeep keep addl, ignoreInvalidAddl := true }
+      let w := match Typedpy.ConvertDeser.deserializeVersioned O opts cls msOpt doc with
+        | .error e => Json.mkObj [("err", .str (errName e)), ("stage", .str "prologue")]
+        | .ok r => Typedpy.Wire.resToJson r
+      let plain ← match Typedpy.Wire.optField j "plainCls", full with
+        | some pj, .ok d' => do
+          let pc ← Typedpy.Wire.declOfJson pj
+          pure [("deserPlainModel", Typedpy.Wire.resToJson (Typedpy.ConvertDeser.deserializePlain O opts pc d'))]
+        | _, _ => pure []
+      pure ([("deserWhole", w)] ++ plain)
   let kw ← match Typedpy.Wire.optField j "kw" with
     | none => pure []
     | some x => do match (← docOfJson x) with | .obj kvs => pure kvs | _ => throw "kw"
@@ -161,7 +180,7 @@ def run (j : Json) : Except String Json := do
     ("wf", .bool (wfHistory ms)), ("wfMappings", .bool (ms.all wfMapping)), ("inDomain", .bool (inDomain ms doc)),
     ("docVersion", optInt (docVersion doc)), ("effVersion", optInt (effectiveVersion doc)),
     ("hasVersionKey", .bool (hasVersionKey doc)),
-    ("deserIn", resToJson deserIn), ("deserExtras", resToJson extras), ("initVersion", optInt initV), ("upgradeAgrees", optBool upg)]
+    ("deserIn", resToJson deserIn), ("deserExtras", resToJson extras), ("initVersion", optInt initV), ("upgradeAgrees", optBool upg)] ++ whole
   -- laws evaluated on what the real code returned (documents arrive with sorted keys)
   let laws ← match Typedpy.Wire.optField j "impl" with
     | none => pure []
